@@ -41,6 +41,38 @@ pub fn dispatch(op: &str, req: &Value) -> Result<Value, String> {
                 Err(e) => Ok(json!({"err": e.to_string()})),
             }
         }
+        "task_consistency" => {
+            // builds the task function `trials` times (independent pipeline instances: another rank, a restart, a second
+            // loader) and applies each instance to the same item; returns the distinct results
+            let special = SpecialConfig { pad: "<pad>".to_string(), tokens: vec!["<pad>".to_string()], prefix: vec![], suffix: vec![] };
+            let tok = TokenizerConfig {
+                tokenize: TokenizeConfig::Byte(ByteTokenizerConfig {
+                    use_graphemes: false,
+                    pad_to_multiple_of: None,
+                    groups: ByteGroups::Bytes,
+                    aggregation: GroupAggregation::Mean,
+                }),
+                special,
+            };
+            let classes = strs(&req["classes"]);
+            let mut outs: Vec<String> = vec![];
+            for _ in 0..req["trials"].as_u64().unwrap_or(12) {
+                let cfg = match req["task"].as_str().unwrap_or("Classification") {
+                    "WhitespaceCorrection" => TrainTaskConfig::WhitespaceCorrection(false, tok.clone()),
+                    _ => TrainTaskConfig::Classification(tok.clone(), true, classes.clone()),
+                };
+                let f = train_task(cfg);
+                let item = TrainData::new(s(req, "input")?, Some(s(req, "target")?));
+                let o = match f(&item) {
+                    Ok(t) => format!("{:?}", t),
+                    Err(e) => format!("Err {e}"),
+                };
+                if !outs.contains(&o) {
+                    outs.push(o);
+                }
+            }
+            Ok(json!(outs))
+        }
         _ => Err(format!("unknown op {op}")),
     }
 }
